@@ -104,6 +104,18 @@ func runIsoParallel(ctx *core.RunCtx, srcs []string) {
 	}
 }
 
+// isoFirstUse are snippets exercising what a library may set up on first use.
+var isoFirstUse = []string{
+	`emit("fu1", ("a.b-c(d)+e*f?g[h]^i$j%k"):gsub("[%.%-%(%)%+%*%?%[%]%^%$%%]", "_")); probe(0); emit("fu1b", ("x=1;y=2"):match("^(%w+)%=(%d+)%;"))`,
+	`emit("fu2", string.format("%5.2f|%-4d|%q|%x|%g|%s", 1.5, 7, "a\nb", 255, 1e20, nil)); probe(0); emit("fu2b", string.pack("<i4 >I2 z s1", 1, 2, "a", "b"):byte(1, -1))`,
+	`emit("fu3", tostring(1.5), tostring(1e100), tostring(-0.0), tostring(2^63), math.tointeger("8"), tonumber("0x1p4"), tonumber("1e2")); probe(0); emit("fu3b", utf8.char(72, 228, 8364, 128512), utf8.len("häé"))`,
+	`emit("fu4", type(os.time()), type(os.clock()), os.date("!%Y-%m-%d %H:%M:%S", 86400), os.date("!*t", 0).year); probe(0); emit("fu4b", os.time({year = 2000, month = 1, day = 1, hour = 12}) ~= nil)`,
+	`emit("fu5", pcall(load, "return 1 +")); probe(0); emit("fu5b", load("return ...", "c", "t", {})(3)); emit("fu5c", select("#", table.unpack({1, 2, nil, 4}, 1, 4)), table.concat({1, 2, 3}, ","))`,
+	`local t = {5, 2, 8, 1}; table.sort(t, function(a, b) return a > b end); probe(0); emit("fu6", table.concat(t, " "), #string.rep("ab", 3, "-"), ("abc"):reverse(), ("x"):byte(), math.max(1, 2.5), math.floor(-0.5), 7 // 2, 2^0.5 > 1.41)`,
+	`emit("fu7", math.type(math.random(10)), math.random() < 1); probe(0); emit("fu7b", type(package.path), type(package.config), package.searchpath("no.such", "./?.x") == nil, type(require))`,
+	`local co = coroutine.wrap(function(a) local b = coroutine.yield(a + 1) return b * 2 end); emit("fu8", co(1), co(5)); probe(0); emit("fu8b", coroutine.isyieldable(), select(2, coroutine.running()), pcall(error, setmetatable({}, {__tostring = function() return "E" end})))`,
+}
+
 func runIso(ctx *core.RunCtx) {
 	g := ctx.Gen
 	n := 2 + g.Choose(3)
@@ -117,6 +129,14 @@ func runIso(ctx *core.RunCtx) {
 		srcs[i] = strings.ReplaceAll(srcs[i], "); local r", "); probe(0); local r")
 		for k := range f {
 			feats[k] = true
+		}
+	}
+	if ctx.Mode == "fresh" {
+		// the worker process is only a few runs old (small chunks): whatever golua initialises lazily or
+		// memoises on first use is touched by every runtime, so that a first use shared between runtimes
+		// - which happens once per process - falls inside an observed, interleaved run
+		for i := range srcs {
+			srcs[i] = isoFirstUse[g.Choose(len(isoFirstUse))] + "\n" + isoFirstUse[g.Choose(len(isoFirstUse))] + "\n" + srcs[i]
 		}
 	}
 	ctx.Sample = strings.Join(srcs, "\n-- ==== next runtime ====\n")
